@@ -23,7 +23,15 @@ func (u *Unit) execCall(s *State, f *Frame, x *ssa.Call) []*State {
 			name = sf.Name()
 		}
 		for i, cp := range u.C.CallPre {
-			if cp.Name == name {
+			want := cp.Name
+			if j := strings.Index(want, "#"); j > 0 {
+				// `callpre F#3: E` — only the third call of F in the function (source order)
+				if want[j+1:] != fmt.Sprint(u.callOrdinal(x, name)) {
+					continue
+				}
+				want = want[:j]
+			}
+			if want == name {
 				env := u.specEnv(s, f)
 				for k, a := range c.Args {
 					// arg0, arg1, ...: the arguments of this call (without the receiver)
@@ -1033,6 +1041,36 @@ func (u *Unit) returnOrdinal(in ssa.Instruction) int {
 	sort.SliceStable(rets, func(i, j int) bool { return key(rets[i]) < key(rets[j]) })
 	for i, r := range rets {
 		if r == in {
+			return i + 1
+		}
+	}
+	return 0
+}
+
+// callOrdinal: 1-based position of a call instruction among the calls of the same callee/method name
+// in the unit's function, in source order.
+func (u *Unit) callOrdinal(x *ssa.Call, name string) int {
+	var calls []*ssa.Call
+	for _, b := range u.Fn.Blocks {
+		for _, in := range b.Instrs {
+			c, ok := in.(*ssa.Call)
+			if !ok {
+				continue
+			}
+			n := ""
+			if c.Common().IsInvoke() {
+				n = c.Common().Method.Name()
+			} else if sf, ok := c.Common().Value.(*ssa.Function); ok {
+				n = sf.Name()
+			}
+			if n == name {
+				calls = append(calls, c)
+			}
+		}
+	}
+	sort.SliceStable(calls, func(i, j int) bool { return calls[i].Pos() < calls[j].Pos() })
+	for i, c := range calls {
+		if c == x {
 			return i + 1
 		}
 	}
